@@ -24,6 +24,7 @@ RULE = (
     "target name; change sets are applied to an in-memory tree by the reference interpreter of change objects and 1 in 8 also "
     "performed on disk (must agree) and undone; non-trivial = accepted rename that rewrote >= 2 tokens or moved a file while "
     "another binding uses the same identifier; distinct by (project hash, binding id, query)"
+    "; plus (1 case in 8) a scenario family of several star imports exporting the same names with a behavioural oracle; G-PROJ also has keyword constructor calls, __call__, multi-name global statements, docstrings with adjacent quotes, dedented continuation lines and comparison arguments"
 )
 ASSUMPTIONS = [
     "programs are int-valued, total and deterministic, so equal stdout + equal exception class is behavioural equality",
